@@ -20,6 +20,7 @@ import (
 	"fmt"
 	"net/http"
 	"net/http/httptest"
+	"os"
 	"strconv"
 	"strings"
 	"sync"
@@ -446,6 +447,10 @@ func c12CallCase(r *Rng, i int) {
 		if l >= 1 && l <= 3 { // the 1..3 class is driven on the buffer alone (ob/obn, child process)
 			l = 0
 		}
+		if c12AboveInt64(p.kind, l) {
+			l = 1<<63 - 1 - uint(r.Intn(3))
+			Stat("call:excluded-known-class(limit-above-int64)")
+		}
 		return l
 	}
 	switch r.Intn(4) {
@@ -501,5 +506,25 @@ func c12KnownWitness() {
 	_, real, bad, _ := c12JudgeCall(p)
 	if bad != "" {
 		Known(c12KnownID, "server-side RESPONSE_TOO_LARGE is not reported with TJSONProtocol: the reply is found too large at Flush, the protocol's bufio.Writer keeps that error and drops everything sendError writes through it; the published reply holds only the response header and the caller fails with a protocol error ("+real+") instead of transport exception 101")
+	}
+}
+
+// ---------- known finding: an HTTP limit above MaxInt64 ----------
+
+const c12KnownLimitID = "limit-above-int64"
+
+// c12AboveInt64: the HTTP transport / handler with a limit the handler's int64 (the client's
+// int conversion) cannot hold. VERIF_C12_NOEXCL=1 switches the exclusion off (to re-establish it).
+func c12AboveInt64(kind string, limit uint) bool {
+	return strings.HasPrefix(kind, "http") && limit > 1<<63-1 && os.Getenv("VERIF_C12_NOEXCL") == ""
+}
+
+// c12KnownLimitWitness replays known/c12_limit_above_int64: Known(...) while it still fails.
+func c12KnownLimitWitness() {
+	sh := func(s string) *c12Shape { return c12ParseShape(s) }
+	_, r1, b1, _ := c12JudgeCall(c12CallParams{kind: "http", proto: "binary", args: sh("string:5"), result: sh("string:7"), rlimit: 1 << 63})
+	_, r2, b2, _ := c12JudgeCall(c12CallParams{kind: "http", proto: "binary", args: sh("string:5"), result: sh("string:7"), qlimit: 1 << 63})
+	if b1 != "" || b2 != "" {
+		Known(c12KnownLimitID, "HTTP limits above MaxInt64 (the client's limits are uint): WithResponseSizeLimit(2^63) -> the handler answers every call 400 'x-frugal-payload-limit header not an integer' ("+r1+"); WithRequestSizeLimit(2^63) -> len(data) > int(limit) is always true, every request is rejected as REQUEST_TOO_LARGE ("+r2+")")
 	}
 }
